@@ -123,10 +123,10 @@ PROPS.update({
         rule='cases = pairs of range texts (a, b): every pair of comparators over numbers {0,1} of MC_Syntax (quick: a seeded slice of the first component; thorough: all) for `a b`/`b a` and `a||b`/`b || a`, + seeded random comparator lists and multi-alternative texts sharing a small pool of numbers and tags so that empty and non-empty conjunctions both occur; all four texts plus a and b are parsed by the crate; distinct = distinct (kind, a, b)',
         exhaustive_models=True, assumptions=COMMON_ASSUME, probe_cap=40, chunks=14),
     'C03': dict(
-        models=[mc_syntax('single', 'MC_Syntax_single', 1), mc_syntax('pairs', 'MC_Syntax_pairs', 8)],
+        models=[mc_syntax('single', 'MC_Syntax_single', 1), mc_syntax('pairs', 'MC_Syntax_pairs', 8), mc_syntax('alts', 'MC_Syntax_alts', 16)],
         gens=[dict(scenario='rtext', n=dict(quick=4000, thorough=60000))],
         events=['rparse', 'sat'],
-        rule=SYNTAX_RULE + '; for C03 the verdict is phrased given the bounds the crate built: a prerelease is satisfied iff it lies in the bounds of the alternative and some comparator was written with a tag on its tuple; probes include same-tuple / neighbouring-tuple / foreign-tuple prereleases and build-suffixed copies',
+        rule=SYNTAX_RULE + '; for C03 the verdict is phrased given the bounds the crate built: a prerelease is satisfied iff it lies in the bounds of the alternative and some comparator was written with a tag on its tuple; probes include same-tuple / neighbouring-tuple / foreign-tuple prereleases and build-suffixed copies; for texts with several alternatives (and whenever the observations disagree with the meaning) the order-free clauses apply: no prerelease admitted without a written tag on its tuple in some alternative, none refused that an alternative as written both contains and tags',
         exhaustive_models=True, assumptions=COMMON_ASSUME, probe_cap=40, chunks=14),
 })
 
